@@ -16,7 +16,6 @@ import Driver.StreamOps
 import Driver.EncOps
 import Driver.BackendOps
 import Driver.SpecTreeOps
-import Driver.G0Ops
 import H5.Model.Walker
 import H5.Model.Sax
 import H5.Model.InjectMeta
@@ -112,7 +111,7 @@ def handle (ws : List String) : String :=
   | op :: rest =>
     if op.startsWith "xml:" then handleXml (op :: rest) else
     -- add-on op files: one `List String → Option String` handler each
-    match [handleTok, handleSpec, handleSer, handleTreeOps, handleSan, handleStream, handleEnc, handleBackend, handleSpecTree, handleG0].findSome? (fun h => h (op :: rest)) with
+    match [handleTok, handleSpec, handleSer, handleTreeOps, handleSan, handleStream, handleEnc, handleBackend, handleSpecTree].findSome? (fun h => h (op :: rest)) with
     | some r => r
     | none => "bad-op"
   | _ => "bad-op"
